@@ -293,6 +293,12 @@ impl Dictionary {
         }
     }
 
+    /// Verification hook: template positions pre-summed into the matrix part by the last
+    /// `DualConnector::from_readers` call of the current thread.
+    pub fn verif_last_dual_split() -> Vec<usize> {
+        crate::dictionary::connector::DualConnector::verif_last_split()
+    }
+
     /// Verification hook: `(num_right, num_left)` of the stored connector.
     pub fn verif_conn_dims(&self) -> (usize, usize) {
         (self.connector().num_right(), self.connector().num_left())
